@@ -319,7 +319,10 @@ class RealRun:
         if not self.parallel:
             args += ["--no-parallel"]
         args += list(it[2])
-        res = self.repo.xvc(*args)
+        res = self.repo.xvc(*args, timeout=900)
+        if res.timed_out:
+            # a loaded machine, not a verdict: the caller retries or sets the history aside
+            raise TimeoutError("xvc %s did not finish within 900 s" % " ".join(args[-4:]))
         self.log.append((args, res.rc, "\n".join(l for l in res.err.split("\n") if "[ERROR]" in l or "panicked" in l)[-400:]))
         oc = "Panic" if res.panicked else ("Err" if res.failed else "Ok")
         return oc, res
